@@ -4,6 +4,7 @@ package interp
 
 import (
 	"fmt"
+	"regexp"
 	"go/token"
 	"go/types"
 	"os"
@@ -27,27 +28,81 @@ type Program struct {
 	Overlay  map[string][]byte
 	Harness  []string // names of VH_* functions found
 	FuncHash map[string]string
+	Dropped  map[string]string // harness files replaced or dropped because they no longer type-check
+	HarnessFiles map[string][]byte
 }
 
 // Load type-checks /repo with the harness files overlaid and builds SSA.
+// A harness file that does not type-check against the current tree (a
+// private identifier it names was renamed or removed) is replaced by
+// alt/<file> when that exists and dropped otherwise; what was dropped is
+// recorded in Program.Dropped so that checks report reduced coverage
+// instead of failing as a whole.
 func Load(repoDir, harnessDir string) (*Program, error) {
-	overlay := map[string][]byte{}
+	files := map[string][]byte{}
 	ents, err := os.ReadDir(harnessDir)
 	if err != nil {
 		return nil, err
 	}
 	for _, e := range ents {
-		if e.IsDir() || !strings.HasSuffix(e.Name(), ".go") {
-			continue
-		}
-		if strings.HasSuffix(e.Name(), "_test.go") {
+		if e.IsDir() || !strings.HasSuffix(e.Name(), ".go") || strings.HasSuffix(e.Name(), "_test.go") {
 			continue
 		}
 		b, err := os.ReadFile(filepath.Join(harnessDir, e.Name()))
 		if err != nil {
 			return nil, err
 		}
-		overlay[filepath.Join(repoDir, "zz_verif_"+e.Name())] = b
+		files[e.Name()] = b
+	}
+	dropped := map[string]string{}
+	usedAlt := map[string]bool{}
+	for attempt := 0; attempt < 12; attempt++ {
+		P, errs, err := loadOnce(repoDir, files)
+		if err != nil {
+			return nil, err
+		}
+		if len(errs) == 0 {
+			P.Dropped = dropped
+			P.HarnessFiles = files
+			return P, nil
+		}
+		// attribute errors to harness files
+		bad := map[string]string{}
+		other := []string{}
+		for _, e := range errs {
+			m := harnessFileRe.FindStringSubmatch(e)
+			if m == nil {
+				other = append(other, e)
+				continue
+			}
+			if _, ok := bad[m[1]]; !ok {
+				bad[m[1]] = e
+			}
+		}
+		if len(bad) == 0 {
+			return nil, fmt.Errorf("load errors:\n%s", strings.Join(other, "\n"))
+		}
+		for name, msg := range bad {
+			altPath := filepath.Join(harnessDir, "alt", name)
+			if b, err := os.ReadFile(altPath); err == nil && !usedAlt[name] {
+				usedAlt[name] = true
+				files[name] = b
+				dropped[name] = "replaced by alt/" + name + ": " + msg
+			} else {
+				delete(files, name)
+				dropped[name] = "dropped: " + msg
+			}
+		}
+	}
+	return nil, fmt.Errorf("harness files could not be made to type-check")
+}
+
+var harnessFileRe = regexp.MustCompile(`zz_verif_([A-Za-z0-9_]+\.go):`)
+
+func loadOnce(repoDir string, files map[string][]byte) (*Program, []string, error) {
+	overlay := map[string][]byte{}
+	for name, b := range files {
+		overlay[filepath.Join(repoDir, "zz_verif_"+name)] = b
 	}
 	cfg := &packages.Config{
 		Mode:       packages.LoadAllSyntax,
@@ -59,7 +114,7 @@ func Load(repoDir, harnessDir string) (*Program, error) {
 	}
 	pkgs, err := packages.Load(cfg, ".")
 	if err != nil {
-		return nil, err
+		return nil, nil, err
 	}
 	var errs []string
 	packages.Visit(pkgs, nil, func(p *packages.Package) {
@@ -68,12 +123,12 @@ func Load(repoDir, harnessDir string) (*Program, error) {
 		}
 	})
 	if len(errs) > 0 {
-		return nil, fmt.Errorf("load errors:\n%s", strings.Join(errs, "\n"))
+		return nil, errs, nil
 	}
 	prog, spkgs := ssautil.AllPackages(pkgs, ssa.InstantiateGenerics)
 	prog.Build()
 	if len(spkgs) != 1 || spkgs[0] == nil {
-		return nil, fmt.Errorf("expected one root package")
+		return nil, nil, fmt.Errorf("expected one root package")
 	}
 	P := &Program{Prog: prog, Sod: spkgs[0], RepoDir: repoDir, Overlay: overlay,
 		Sizes: types.SizesFor("gc", runtime.GOARCH)}
@@ -83,7 +138,7 @@ func Load(repoDir, harnessDir string) (*Program, error) {
 		}
 	}
 	sort.Strings(P.Harness)
-	return P, nil
+	return P, nil, nil
 }
 
 func mustDeref(t types.Type) types.Type {
